@@ -5,7 +5,6 @@ import (
 	"go/constant"
 	"go/token"
 	"go/types"
-	"sort"
 	"strings"
 
 	"golang.org/x/tools/go/ssa"
@@ -625,11 +624,37 @@ func ruleD7(w *world.World, r *report.RuleResult) {
 
 // constStrings collects string constants reachable backwards through call arguments
 // (path.Join, fmt.Sprintf), varargs arrays, phis and local variables.
+// constParamBind maps a helper's parameter to the arguments passed at its (static) call sites, so
+// that a path assembled partly in the caller and partly in a helper is still read in full.
+var constParamBind = map[*ssa.Parameter][]ssa.Value{}
+
+func bindParams(call *ssa.Call) {
+	f := call.Call.StaticCallee()
+	if f == nil || len(f.Params) != len(call.Call.Args) {
+		return
+	}
+	for i, p := range f.Params {
+		dup := false
+		for _, v := range constParamBind[p] {
+			if v == call.Call.Args[i] {
+				dup = true
+			}
+		}
+		if !dup {
+			constParamBind[p] = append(constParamBind[p], call.Call.Args[i])
+		}
+	}
+}
+
 func constStrings(v ssa.Value, depth int, out *[]string) {
 	if depth > 8 || v == nil {
 		return
 	}
 	switch x := v.(type) {
+	case *ssa.Parameter:
+		for _, a := range constParamBind[x] {
+			constStrings(a, depth+1, out)
+		}
 	case *ssa.Const:
 		if x.Value != nil && x.Value.Kind() == constant.String {
 			*out = append(*out, constant.StringVal(x.Value))
@@ -705,333 +730,6 @@ type fileEv struct {
 	op   string // os.Create, os.OpenFile, os.Open, os.Rename, os.WriteFile, os.Remove, Write, Sync, Close, call:<field>
 	kind string // manifest | state | manifest-tmp | ...
 	src  string // for rename: kind of the source
-}
-
-func ruleD6(w *world.World, r *report.RuleResult) {
-	ts := w.Func("internal/snapshot.(*Engine).TakeSnapshot")
-	if ts == nil {
-		r.Err = fmt.Errorf("snapshot.Engine.TakeSnapshot not found")
-		return
-	}
-	fname := world.FuncName(ts)
-	var events []fileEv
-	handleKind := map[ssa.Value]string{}
-	openOf := map[ssa.Value]*ssa.Call{}
-	for _, c := range world.Calls(ts) {
-		call, ok := c.(*ssa.Call)
-		if !ok {
-			continue
-		}
-		f := call.Call.StaticCallee()
-		if f == nil {
-			continue
-		}
-		n := f.String()
-		switch n {
-		case "os.Create", "os.OpenFile", "os.Open", "os.WriteFile", "os.Remove", "os.RemoveAll", "os.Truncate":
-			k := pathKind(call.Call.Args[0])
-			events = append(events, fileEv{in: call, op: n, kind: k})
-			if call.Referrers() != nil {
-				for _, ref := range *call.Referrers() {
-					if ex, ok := ref.(*ssa.Extract); ok && ex.Index == 0 {
-						handleKind[ex] = k
-						openOf[ex] = call
-					}
-				}
-			}
-		case "os.Rename":
-			events = append(events, fileEv{in: call, op: n, kind: pathKind(call.Call.Args[1]), src: pathKind(call.Call.Args[0])})
-		}
-	}
-	var resolve func(v ssa.Value, depth int, out map[ssa.Value]bool)
-	resolve = func(v ssa.Value, depth int, out map[ssa.Value]bool) {
-		if depth > 6 {
-			return
-		}
-		if _, ok := handleKind[v]; ok {
-			out[v] = true
-			return
-		}
-		switch x := v.(type) {
-		case *ssa.Phi:
-			for _, e := range x.Edges {
-				resolve(e, depth+1, out)
-			}
-		case *ssa.UnOp:
-			if x.Op == token.MUL {
-				if al, ok := x.X.(*ssa.Alloc); ok {
-					// flow-sensitive within a block where possible: last store before the load
-					if last := world.LastStoreBefore(x); last != nil {
-						resolve(last, depth+1, out)
-						return
-					}
-					for _, ref := range *al.Referrers() {
-						if st, ok := ref.(*ssa.Store); ok && st.Addr == al && world.Dominates(st, x) || ok && st.Addr == al && !world.Dominates(x, st) {
-							resolve(st.Val, depth+1, out)
-						}
-					}
-				}
-			}
-		case *ssa.MakeInterface:
-			resolve(x.X, depth+1, out)
-		}
-	}
-	type hop struct {
-		call    *ssa.Call
-		op      string
-		handles map[ssa.Value]bool
-	}
-	var hops []hop
-	for _, c := range world.Calls(ts) {
-		call, ok := c.(*ssa.Call)
-		if !ok {
-			continue
-		}
-		f := call.Call.StaticCallee()
-		var m string
-		var recv ssa.Value
-		if f != nil && strings.HasPrefix(f.String(), "(*os.File).") {
-			m = strings.TrimPrefix(f.String(), "(*os.File).")
-			recv = call.Call.Args[0]
-		} else if call.Call.IsInvoke() {
-			m = call.Call.Method.Name()
-			recv = call.Call.Value
-		}
-		switch m {
-		case "Write", "WriteString", "Sync", "Close", "Truncate":
-			hs := map[ssa.Value]bool{}
-			resolve(recv, 0, hs)
-			if len(hs) > 0 {
-				hops = append(hops, hop{call, m, hs})
-			}
-		}
-	}
-	kindsOf := func(h hop) map[string]bool {
-		ks := map[string]bool{}
-		for v := range h.handles {
-			ks[handleKind[v]] = true
-		}
-		return ks
-	}
-	// --- facts ---
-	const (
-		SW   world.Facts = 1 << iota // state written successfully
-		SS                           // state synced successfully
-		NOEX                         // manifest did not exist (errors.Is(err, fs.ErrNotExist) true edge)
-		MREP                         // manifest replaced at its final path
-		TW                           // temp manifest written
-		TS                           // temp manifest synced
-		TC                           // temp manifest closed
-		SETL                         // last-save time published
-	)
-	isErrNotExist := func(cond ssa.Value) bool {
-		c, ok := cond.(*ssa.Call)
-		if !ok {
-			return false
-		}
-		f := c.Call.StaticCallee()
-		if f == nil {
-			return false
-		}
-		switch f.String() {
-		case "errors.Is":
-			if u, ok := c.Call.Args[1].(*ssa.UnOp); ok {
-				if g, ok := u.X.(*ssa.Global); ok && g.Name() == "ErrNotExist" {
-					return true
-				}
-			}
-		case "os.IsNotExist":
-			return true
-		}
-		return false
-	}
-	isManifestReplace := func(e fileEv) bool {
-		if e.kind != "manifest" {
-			return false
-		}
-		switch e.op {
-		case "os.Create", "os.WriteFile", "os.Remove", "os.RemoveAll", "os.Truncate", "os.Rename":
-			return true
-		case "os.OpenFile":
-			if len(e.in.Call.Args) >= 2 {
-				if fl, ok := world.ConstInt(e.in.Call.Args[1]); ok {
-					const oWRONLY, oRDWR, oTRUNC = 0x1, 0x2, 0x200
-					return fl&(oWRONLY|oRDWR) != 0
-				}
-			}
-			return true
-		}
-		return false
-	}
-	succEdgeOf := func(b *ssa.BasicBlock, si int, c *ssa.Call) bool {
-		return world.ErrNilEdge(b, func(v ssa.Value) bool { return v == ssa.Value(c) }) == si
-	}
-	var setLatest *ssa.Call
-	for _, c := range world.Calls(ts) {
-		if n, ok := fieldFuncCall(c); ok && n == "setLatestSnapshotTimeFunc" {
-			setLatest, _ = c.(*ssa.Call)
-		}
-	}
-	eg := func(b *ssa.BasicBlock, si int) world.Facts {
-		var f world.Facts
-		for _, h := range hops {
-			ks := kindsOf(h)
-			if !succEdgeOf(b, si, h.call) {
-				continue
-			}
-			only := func(k string) bool { return len(ks) == 1 && ks[k] }
-			switch {
-			case h.op == "Write" && only("state"):
-				f |= SW
-			case h.op == "Sync" && only("state"):
-				f |= SS
-			case h.op == "Write" && only("manifest-tmp"):
-				f |= TW
-			case h.op == "Sync" && only("manifest-tmp"):
-				f |= TS
-			case h.op == "Close" && only("manifest-tmp"):
-				f |= TC
-			}
-		}
-		if iff := world.IfOf(b); iff != nil && isErrNotExist(iff.Cond) && si == 0 {
-			f |= NOEX
-		}
-		for _, e := range events {
-			if isManifestReplace(e) && succEdgeOf(b, si, e.in) {
-				f |= MREP
-			}
-		}
-		return f
-	}
-	// a replace whose error is never tested counts at the call itself
-	tested := map[*ssa.Call]bool{}
-	for _, b := range ts.Blocks {
-		for si := range b.Succs {
-			for _, e := range events {
-				if succEdgeOf(b, si, e.in) {
-					tested[e.in] = true
-				}
-			}
-		}
-	}
-	gen := func(in ssa.Instruction) world.Facts {
-		var f world.Facts
-		for _, e := range events {
-			if ssa.Instruction(e.in) == in && isManifestReplace(e) && !tested[e.in] {
-				f |= MREP
-			}
-		}
-		if setLatest != nil && in == ssa.Instruction(setLatest) {
-			f |= SETL
-		}
-		return f
-	}
-	must := world.Must(ts, eg, gen, nil)
-	may := world.May(ts, eg, gen, nil)
-	// (a)+(b)
-	nrep := 0
-	for _, e := range events {
-		if !isManifestReplace(e) {
-			continue
-		}
-		f := world.FactsAt(must, e.in, gen, nil)
-		if f&NOEX != 0 {
-			r.OK(fmt.Sprintf("%s|a:first-snapshot-create:%s", fname, e.op), w.InstrPos(e.in), "manifest created in the branch where no manifest (hence no previous snapshot) exists")
-			continue
-		}
-		nrep++
-		key := fmt.Sprintf("%s|a:manifest-replace-after-state-durable:%s", fname, e.op)
-		if f&SW != 0 && f&SS != 0 {
-			r.OK(key, w.InstrPos(e.in), "the manifest is replaced only after Write and Sync of the new state file succeeded")
-		} else {
-			r.Fail(key, w.InstrPos(e.in), fmt.Sprintf("%s replaces/truncates the manifest at its final path before the new state file has been written and synced successfully (state written=%v synced=%v): a crash or failure after this point leaves a manifest that names a snapshot which is not (completely) on disk, or an empty manifest, although a previous good snapshot existed", e.op, f&SW != 0, f&SS != 0))
-		}
-		key = fmt.Sprintf("%s|b:manifest-replace-atomic:%s", fname, e.op)
-		if e.op == "os.Rename" && e.src == "manifest-tmp" && f&TW != 0 && f&TS != 0 && f&TC != 0 {
-			r.OK(key, w.InstrPos(e.in), "manifest replaced by rename of a temporary file that was written, synced and closed")
-		} else if e.op == "os.Rename" {
-			r.Fail(key, w.InstrPos(e.in), fmt.Sprintf("the file renamed over the manifest was not written, synced and closed successfully on every path (written=%v synced=%v closed=%v)", f&TW != 0, f&TS != 0, f&TC != 0))
-		} else {
-			r.Fail(key, w.InstrPos(e.in), fmt.Sprintf("the manifest is rewritten in place (%s truncates it, the new content is written afterwards): a crash between the two leaves an empty or partial manifest and start-up restore fails although a previous snapshot existed; replacement must be an atomic rename of a complete temporary file", e.op))
-		}
-	}
-	if nrep == 0 {
-		r.Fail(fname+"|a:manifest-replace-after-state-durable", w.Pos(ts.Pos()), "TakeSnapshot never publishes a manifest for the new snapshot")
-	}
-	// (c) no error return after the manifest was replaced / last-save published
-	nerr := 0
-	for _, ret := range world.Returns(ts) {
-		rv := world.RetVals(ret)
-		if len(rv) != 1 || world.IsNilConst(rv[0]) {
-			continue
-		}
-		f := world.FactsAt(may, ret, gen, nil)
-		fm := world.FactsAt(must, ret, gen, nil)
-		if fm&NOEX != 0 && f&SETL == 0 {
-			// failures while creating the very first manifest: nothing to preserve
-			continue
-		}
-		nerr++
-		key := fmt.Sprintf("%s|c:failed-attempt-leaves-manifest#%d", fname, nerr)
-		if f&(MREP|SETL) == 0 {
-			r.OK(key, w.InstrPos(ret), "this failure / nothing-new return is not preceded by a manifest replacement or a last-save update")
-		} else if f&NOEX != 0 && f&SETL == 0 && fm&MREP == 0 {
-			r.OK(key, w.InstrPos(ret), "only the first-snapshot manifest creation may precede this failure return")
-		} else {
-			r.Fail(key, w.InstrPos(ret), "a snapshot attempt that fails here has already replaced the manifest or published the last-save time: a failed attempt does not leave the previous snapshot untouched")
-		}
-	}
-	// (d) last-save time only after the manifest is in place
-	if setLatest == nil {
-		r.Fail(fname+"|d:lastsave-after-publish", w.Pos(ts.Pos()), "TakeSnapshot never publishes the last-save time")
-	} else {
-		f := world.FactsAt(must, setLatest, gen, nil)
-		if f&MREP != 0 && f&SS != 0 {
-			r.OK(fname+"|d:lastsave-after-publish", w.InstrPos(setLatest), "last-save time is published only after the state is durable and the manifest replaced")
-		} else {
-			r.Fail(fname+"|d:lastsave-after-publish", w.InstrPos(setLatest), "LASTSAVE is updated although the new snapshot is not yet durable and published")
-		}
-	}
-	// (e) writer/reader agreement on paths and on the timestamp
-	rs := w.Func("internal/snapshot.(*Engine).Restore")
-	if rs == nil {
-		r.Err = fmt.Errorf("snapshot.Engine.Restore not found")
-		return
-	}
-	collect := func(fn *ssa.Function) (man, st []string) {
-		for _, c := range world.Calls(fn) {
-			call, ok := c.(*ssa.Call)
-			if !ok {
-				continue
-			}
-			f := call.Call.StaticCallee()
-			if f == nil {
-				continue
-			}
-			switch f.String() {
-			case "os.Open", "os.OpenFile", "os.Create", "os.ReadFile":
-				var cs []string
-				constStrings(call.Call.Args[0], 0, &cs)
-				sort.Strings(cs)
-				cs = dedup(cs)
-				switch pathKind(call.Call.Args[0]) {
-				case "manifest":
-					man = cs
-				case "state":
-					st = cs
-				}
-			}
-		}
-		return
-	}
-	wm, wst := collect(ts)
-	rm, rst := collect(rs)
-	key := fname + "|e:writer-reader-paths"
-	if len(wst) > 0 && strings.Join(wst, "/") == strings.Join(rst, "/") && strings.Join(wm, "/") == strings.Join(rm, "/") {
-		r.OK(key, w.Pos(rs.Pos()), fmt.Sprintf("writer and reader build the same paths: manifest %v, state %v", wm, wst))
-	} else {
-		r.Fail(key, w.Pos(rs.Pos()), fmt.Sprintf("TakeSnapshot and Restore build different paths: writer manifest %v state %v; reader manifest %v state %v — a snapshot that was written cannot be found again", wm, wst, rm, rst))
-	}
 }
 
 func dedup(s []string) []string {
